@@ -140,7 +140,7 @@ def run(prog, rep, tier='quick', config='default'):
             k = '%s|day-map-%s' % (fn.name, c.short)
             # allowed: building the map from a slice/Vec of loaded rates (the value derives from a &Vec<DailyRate> parameter)
             vo = mir.provenance(fn, c.args[-1], follow_all_call_args=True) if len(c.args) > 1 else None
-            from_vec = vo is not None and any(re.search(r'Vec<fx::model::DailyRate>', fn.ty.get(p, '')) for p in vo.params)
+            from_vec = vo is not None and any(re.search(r'Vec<fx::model::DailyRate>|\[fx::model::DailyRate\]', fn.ty.get(p, '')) for p in vo.params)
             recv = mir.provenance(fn, c.args[0])
             local_map = not recv.params and not any(of.endswith('RateLoader') for of, f in recv.fields)
             if c.short == 'insert' and from_vec and local_map:
@@ -303,11 +303,11 @@ def r12g(prog, rep):
     observations drops whatever falls outside it - 31 December of a leap year with 365 days)"""
     DR = r'std::vec::Vec<fx::model::DailyRate'
     cands = [f for f in prog.product_fns() if f.name.startswith('fx::io::rate_loader::') and f.kind == 'Fn' and
-             re.search(DR, f.ty.get(0, '')) and any(re.search(r'&' + DR, f.ty.get(p, '')) for p in range(1, f.argc + 1))]
+             re.search(DR, f.ty.get(0, '')) and any(re.search(r'&(' + DR + r'|\[fx::model::DailyRate\])', f.ty.get(p, '')) for p in range(1, f.argc + 1))]
     if not rep.anchor('padding function of a downloaded year (&Vec<DailyRate>, year) -> Vec<DailyRate>', [f.name for f in cands]):
         return
     for f in cands:
-        inp = [p for p in range(1, f.argc + 1) if re.search(r'&' + DR, f.ty.get(p, ''))][0]
+        inp = [p for p in range(1, f.argc + 1) if re.search(r'&(' + DR + r'|\[fx::model::DailyRate\])', f.ty.get(p, ''))][0]
         k = '%s|every-observation-is-kept' % f.name
         ok = False
         why = 'no loop over the downloaded observations'
